@@ -317,3 +317,51 @@ PROPS = {
     "C16": dict(parts=[dict(name="kb", mc={"quick": ["MC_KBuckets_c16.cfg", "MC_KBuckets_c16b.cfg"],
                                            "thorough": ["MC_KBuckets_c16.cfg", "MC_KBuckets_c16b.cfg", "MC_KBuckets_c16c.cfg"]})]),
 }
+
+
+# ------------------------------------------------------------------------------------------------ codecs (C05, C06)
+import codec_gen
+
+_CODEC_ASSUME = [
+    "TLA+ decides the case analysis and generates the cases (every abstract case of the specification is replayed, k seeded concrete "
+    "variants each); byte-level fidelity (AES-128-CTR masking, RLP, the discv5.1 layout) is judged against the harness's hand-written "
+    "reference encoders (harness/src/codec); totality is established on the generated classes and on seeded random / mutated strings, "
+    "not on all byte strings: model-based test generation, not proof",
+    "records are produced and re-encoded by the enr crate (an opaque RLP item to the packet / message codecs); invalid records are "
+    "derived from valid ones by bit flips, truncation and type confusion",
+]
+PARTS["pcodec"] = dict(
+    component="pcodec", spec="MC_PacketCodec.tla",
+    mc={"quick": ["MC_PacketCodec.cfg"], "thorough": ["MC_PacketCodec.cfg"]},
+    goals_cfg=None, goals=[], sim={"quick": [], "thorough": []},
+    generate=codec_gen.behaviours("MC_PacketCodec_emit.cfg", {"quick": 8, "thorough": 64}),
+    drive={"quick": 8000, "thorough": 400000},
+    trace="Trace_PacketCodec.tla", mon_cfg="Trace_PacketCodec_mon.cfg", strict_cfg="Trace_PacketCodec_strict.cfg",
+    formulas={"C05." + f: "C05" for f in ("Panic", "TooShort", "TooLong", "OtherId", "ProtocolId", "Version", "Kind", "AuthSize", "WhoAreYouBody",
+                                          "Rejected", "Fields", "AuthData", "Layout", "RoundTrip")},
+    interesting=codec_gen.interesting, required=codec_gen.packet_required, measure=codec_gen.measure,
+    assumptions=_CODEC_ASSUME + [
+        "the codec is observed at the byte-level facade discv5::verif::{packet_decode, PacketView::encode} (= Packet::decode / Packet::encode with "
+        "the default protocol identity); socket/recv.rs and send.rs only pass the datagram and the local / destination id to these functions",
+        "'masked for another node id' = an id that differs in its first 16 bytes: the masking key of the wire specification is dest-id[..16], so "
+        "ids sharing those bytes are indistinguishable to any conforming codec",
+    ],
+)
+PARTS["rcodec"] = dict(
+    component="rcodec", spec="MC_RpcCodec.tla",
+    mc={"quick": ["MC_RpcCodec.cfg", "MC_RpcCodec_inner.cfg"], "thorough": ["MC_RpcCodec.cfg", "MC_RpcCodec_inner.cfg"]},
+    goals_cfg=None, goals=[], sim={"quick": [], "thorough": []},
+    generate=codec_gen.behaviours("MC_RpcCodec_emit.cfg", {"quick": 8, "thorough": 64}),
+    drive={"quick": 8000, "thorough": 400000},
+    trace="Trace_RpcCodec.tla", mon_cfg="Trace_RpcCodec_mon.cfg", strict_cfg="Trace_RpcCodec_strict.cfg",
+    formulas={"C06." + f: "C06" for f in ("Panic", "Missing", "Trailing", "IdLength", "Distance", "Port", "IpLength", "Record", "InnerListLength",
+                                          "Rejected", "Fields", "Layout", "RoundTrip")},
+    interesting=codec_gen.interesting, required=codec_gen.rpc_required, measure=codec_gen.measure,
+    assumptions=_CODEC_ASSUME + [
+        "the codec is observed at the facade re-export discv5::verif::Message (rpc::Message::encode / decode)",
+        "IPv4-mapped (::ffff:a.b.c.d) and IPv4-compatible (::a.b.c.d) addresses are expected to decode to a.b.c.d (by design); for ::1 the "
+        "address value is not judged",
+    ],
+)
+PROPS["C05"] = dict(parts=[dict(name="pcodec")])
+PROPS["C06"] = dict(parts=[dict(name="rcodec")])
